@@ -117,7 +117,7 @@ def check_spec(spec, layout_names):
     return ''
 
 
-LAYOUTS = ['single', 'assets_included', 'assocs_included', 'include_twice', 'nested', 'category_split_over_include', 'category_reopened']
+LAYOUTS = ['single', 'assets_included', 'assocs_included', 'include_twice', 'nested', 'category_split_over_include', 'category_reopened', 'with_comments']
 
 
 def body_prog(cube, **kw):
@@ -159,7 +159,7 @@ def _build_and_check(fam, c):
         if c['cia'] and (c['c'] or c['i'] or c['a']):
             victim['risk'] = {'isConfidentiality': c['c'], 'isIntegrity': c['i'], 'isAvailability': c['a']}
         if c['meta']:
-            victim['meta'] = {'user': 'some text', 'developer': 'x -> y', 'mitre': 'T1'}
+            victim['meta'] = {'user': '  padded text  ', 'developer': 'x -> y ', 'mitre': 'T1'}
         if victim['type'] in ('exist', 'notExist'):
             victim['requires'] = {'overrides': True, 'stepExpressions': [fld('q')]}
         if c['nor']:
@@ -173,7 +173,7 @@ def _build_and_check(fam, c):
         a['leftMultiplicity'] = {'min': lm[0], 'max': lm[1]}
         a['rightMultiplicity'] = {'min': rm[0], 'max': rm[1]}
         if c['meta']:
-            a['meta'] = {'user': 'link'}
+            a['meta'] = {'user': ' link '}
     elif fam == 'asset':
         if c['abs']:
             sp['assets'][0]['isAbstract'] = True
@@ -186,7 +186,7 @@ def _build_and_check(fam, c):
         if c['noassoc']:
             sp['associations'] = []
         if c['defs']:
-            sp['defines']['extra'] = 'value'
+            sp['defines']['extra'] = ' value with blanks '
         lay = [LAYOUTS[c['lay']]]
     return check_spec(sp, lay)
 
